@@ -125,6 +125,10 @@ Fixpoint assocN (m : list (N * N)) (k : N) : option N :=
 Definition instant_add (r : rstore) (instant : bool) (sq : N) : list N * bool :=
   if instant then (lex r ++ [sq], true) else (lex r, tdirty r).
 
+(* some pending insert record carries an embedding *)
+Definition has_pemb (pa : list fattr) : bool :=
+  existsb (fun a => match a_emb a with Some _ => true | None => false end) pa.
+
 Inductive rop :=
 | RPut (uk : option N) (tag nchunks : N) (auto : option N) (created : fields) (text : bool) (emb : option N) (instant : bool)
 | RUpdate (target : N) (newtag : option N) (auto : option N) (opts : fields) (text : bool) (emb : option N) (instant : bool)
@@ -200,8 +204,10 @@ Definition rstep (r : rstore) (op : rop) : rstore * sout :=
       let r2 := match pending (base r1) with [] => r1 | _ => sync r1 0 end in
       (r2, observe (base r2) (Ok 0))
   | RCrash extra =>
-      (* the process state is lost: vec_enabled is what the last commit persisted *)
-      let r0 := mkR b (attrs r) (pattrs r) (lex r) (tdirty r) (vec r) (vec_disk r) (vec_disk r) (tix r) in
+      (* the process state is lost: vec_enabled is what the last commit persisted -- or the replay
+         itself enables it: commit_from_records calls enable_vec when the replayed delta carries
+         embeddings (repo commit 8099cac) *)
+      let r0 := mkR b (attrs r) (pattrs r) (lex r) (tdirty r) (vec r) (vec_disk r || has_pemb (pattrs r)) (vec_disk r) (tix r) in
       let r1 := match pending b with
                 | [] => set_base r0 (mkStore (committed b) [] (seqno b + extra) 0 false)
                 | _ => sync r0 extra
